@@ -38,6 +38,10 @@ EXPLANATION += " Added: (R9) the cascade as a whole is interpreted with a script
 TRUSTED = ["CPython ast parser", "copy.deepcopy / attrs.evolve return new objects"]
 EXPLANATION += " Added: (R10) each basis-correction helper, evaluated on abstract two-primitive shells, rescales every primitive of a shell it touches or none; (R11) the Molden reader's tag branch gives every tag line the meaning the format assigns (finite-domain evaluation)."
 TECHNIQUE += '; accessor evaluation of the correction helpers; finite-domain evaluation of the tag branch'
+# --- metadata added for batch 7
+TECHNIQUE += '; decision-table evaluation of the norm predicate with a stub overlap matrix; vendor factor table evaluated per shell type'
+EXPLANATION += ' Changed / added: (R8) the norm predicate is no longer matched against a loop template: it is interpreted with compute_overlap standing for a fixed non-diagonal matrix on 15 orbital sets whose S-norms are known by construction (each spin, first / last orbital, too large / too small, both thresholds, square-root and square scale, identity-normalised) -- a vectorised rewrite stays silent, a verdict that looks at one spin block only is reported; (R10) vendor corrections rescale every primitive with the documented factor and direction per shell type; (R12) the [Atoms] unit keyword (C04-R6); (R13) a pure-function tag that follows [MO] survives the orbital reader (the evaluated clause C01-R15).'
+# --- end metadata batch 7
 
 
 def static_len(e):
